@@ -823,7 +823,13 @@ func (g *pfGen) translate(c *Call) *Call {
 	if c.Args != nil {
 		out.Args = map[string]interface{}{}
 	}
-	for k, v := range c.Args {
+	argKeys := make([]string, 0, len(c.Args))
+	for k := range c.Args {
+		argKeys = append(argKeys, k)
+	}
+	sort.Strings(argKeys) // deterministic use of the random source
+	for _, k := range argKeys {
+		v := c.Args[k]
 		if cc, ok := v.(*Call); ok {
 			v = g.translate(cc)
 		}
